@@ -34,8 +34,14 @@
    order, of encodings of distinct known fields and of unknown fields of every wire type (varint, fixed64,
    length-delimited, fixed32) parses to the default object updated at exactly the fields present: unknown fields are
    skipped, absent fields keep their defaults, field order does not matter.
-   NOT proved (checked on implementation + model by the correspondence run and monitors only): that the wire format
-   of each field equals protobuf's own encoder output (checked against protoc-generated messages); the size cache
+   c11_proto_wire_compat: against a hand-written specification of the protobuf wire format (SEProto.proto_split:
+   message = record*, tag = varint(field*8 + wire type), varint / 8 bytes / length + bytes / 4 bytes), what an
+   aggregate writes splits into exactly its non-empty members under their field numbers, bool/int8..int32/uint8..
+   uint32 as the 32 bit and int64/uint64/enum as the 64 bit two's complement varint, float/double as fixed32/64 bit
+   patterns, string/bytes/nested aggregate/packed repeated scalars as length-delimited bytes (the kinds
+   docs/serialization lists).  A protobuf reader truncates the int32 varint to 32 bits, so 5-byte negative int32s
+   are accepted; that protoc's generated classes implement this specification is checked by the monitors.
+   NOT proved (checked on implementation + model by the correspondence run and monitors only): the size cache
    of re-used objects (monitor); independence of the chunking of a stream-backed input (the stream model has no
    chunks: protobuf's buffering only shows in how much a FAILED varint read consumes, and since e367940 only a failed
    tag read is survivable - with >= 10 continuation bytes where a tag is expected a flat array fails where a chunked
@@ -44,7 +50,7 @@
    in containers, top-level vector on a stream without limit: empty / vector<float>: terminate), each replayed on
    the real classes by checks/c11.py. *)
 From Coq Require Import ZArith List Permutation.
-Require Import Verif.Gen.Gen_serialization Verif.SE.SEModel Verif.SE.SEProofs Verif.SE.SEHang Verif.SE.SEStable.
+Require Import Verif.Gen.Gen_serialization Verif.SE.SEModel Verif.SE.SEProofs Verif.SE.SEHang Verif.SE.SEStable Verif.SE.SEProto.
 Import ListNotations.
 Local Open Scope Z_scope.
 
@@ -127,6 +133,18 @@ Theorem c11_field_order_irrelevant : forall nd fs cs cs', ty_ok (TAgg fs) ->
             parse nd false (TAgg fs) (concat (map (chunk_bytes fs) cs')) = Ok v (S0 []).
 Proof. exact compat_order_irrelevant. Qed.
 Print Assumptions c11_field_order_irrelevant.
+
+(* the bytes an aggregate writes, read with the protobuf wire-format specification *)
+Theorem c11_proto_wire_compat : forall fs l fuel, ty_ok (TAgg fs) -> wf (TAgg fs) (VSeq l) ->
+  (length (encode (TAgg fs) (VSeq l)) < fuel)%nat ->
+  proto_split fuel (encode (TAgg fs) (VSeq l)) = Some (proto_fields fs l).
+Proof. exact proto_wire_compat. Qed.
+Print Assumptions c11_proto_wire_compat.
+Example c11_proto_fields_example :
+  proto_fields [(1, TS KI32); (2, TStr); (3, TVec (TS KI64)); (4, TPtr false TStr)]
+               [VInt (-1); VStr [97; 98]; VSeq [VInt 1; VInt 300]; VSome (VStr [])]
+  = [(1, PVarint (2 ^ 32 - 1)); (2, PLen [97; 98]); (3, PLen [1; 172; 2])].
+Proof. vm_compute. reflexivity. Qed.
 
 (* one iteration of the generated deserialize() skips an unknown field of any wire type *)
 Theorem c11_unknown_field_skipped : forall nd fs num w pay rest cur fuel,
